@@ -1,4 +1,4 @@
-CONSTANTS MaxMain = 2 MaxSub1 = 1 MaxSub2 = 1 Mode = "code"
+CONSTANTS MaxMain = 2 MaxSub1 = 0 MaxSub2 = 0 Mode = "code"
 INIT Init
 NEXT Next
 CHECK_DEADLOCK FALSE
